@@ -162,7 +162,8 @@ class Kauri(ClusterMixin, BaseEstimator, ABC):
             kernel = y
         else:
             kernel = pairwise_kernels(X, metric=self.kernel)
-        return kernel
+        # The split search and the objective are compiled for double precision
+        return np.asarray(kernel, dtype=np.float64)
 
     def fit(self, X, y=None):
         """Performs the KAURI algorithm by repeatedly choosing leaves, evaluating best gain and increasing the tree
